@@ -21,6 +21,7 @@ func init() { props["c19"] = runRace }
 
 func runRace(c *ctx) error {
 	longBlocks := 0
+	wideTables := 0
 	rounds := 6
 	goroutines := 8
 	perG := 120
@@ -145,6 +146,41 @@ func runRace(c *ctx) error {
 		if incRd != nil {
 			targets = append(targets, target{"reader/incompressible-logs", incRd, incRef, tableQueries(c, &inc, "c02")})
 		}
+		// a table whose header names no block size (as other writers produce for unpadded
+		// tables) with blocks longer than the default read window: every block is fetched in two steps
+		var wide tableCase
+		wide.cfg = tcfg{BlockSize: uint32(9000 + c.rng.Intn(9000)), Unaligned: true, Exact: true, Restart: 16, SHA256: cfg.SHA256}
+		wide.min, wide.max = 1, 4
+		hsz := 20
+		if cfg.SHA256 {
+			hsz = 32
+		}
+		for k := 0; k < 700; k++ {
+			h1 := make([]byte, hsz)
+			c.rng.Read(h1[:2])
+			wide.refs = append(wide.refs, reftable.RefRecord{RefName: fmt.Sprintf("refs/heads/wide%05d", k), UpdateIndex: uint64(1 + k%4), Value: h1})
+			if k%4 == 0 {
+				h2 := make([]byte, hsz)
+				c.rng.Read(h2)
+				wide.logs = append(wide.logs, reftable.LogRecord{RefName: fmt.Sprintf("refs/heads/wide%05d", k), UpdateIndex: uint64(1 + k%4), New: h1, Old: h2,
+					Name: "n", Email: "e", Time: uint64(k), Message: fmt.Sprintf("m%d", k)})
+			}
+		}
+		if w, d := writeTable(wide.cfg, wide.min, wide.max, wide.refs, wide.logs); strings.HasPrefix(w, "ok:") {
+			fsz := 68
+			if d[4] == 2 {
+				fsz = 72
+			}
+			copy(d[5:8], []byte{0, 0, 0})
+			copy(d[len(d)-fsz+5:len(d)-fsz+8], []byte{0, 0, 0})
+			fixCRC(d)
+			wRd, _ := openReader(d)
+			wRef, _ := openReader(append([]byte{}, d...))
+			if wRd != nil && wRef != nil {
+				targets = append(targets, target{"reader/memory-no-block-size", wRd, wRef, tableQueries(c, &wide, "c01")})
+				wideTables++
+			}
+		}
 		for _, tg := range targets {
 			if len(tg.qs) == 0 {
 				continue
@@ -189,6 +225,7 @@ func runRace(c *ctx) error {
 		fileRef.Close()
 	}
 	c.stats["log_blocks_longer_than_read_window"] = longBlocks
+	c.stats["tables_without_header_block_size"] = wideTables
 	return nil
 }
 
